@@ -123,8 +123,9 @@ PROPS = {
         "design_ref": "DESIGN.md section 5 / C09",
         "not_covered": [
             "make_salt (iterator chain): the salt prefix is an assumed contract in the Verus unit; it is checked by the bounded Kani family K-PRF-SALT (inputs of 0, 1, 5 bytes) on the real source file",
-            "get_ctap_extension / make_ctap_extension (iterator and collect chains): per-credential inputs without an allow list, "
-            "empty / undecodable / unlisted credential keys are not decided",
+            "get_ctap_extension / auth_prf_to_ctap2_input (iterator and collect chains over HashMaps with nested closures; a hand translation "
+            "exceeds the resource limit): per-credential inputs without an allow list, empty / undecodable / unlisted credential keys at "
+            "authentication are not decided. The registration side (make_ctap_extension, registration_prf_to_ctap2_input) is proved",
             "select_salts is proved (an evalByCredential entry for the credential id before the top-level eval) over a trusted model of "
             "hash_map::IntoIter::find (rule R19: some entry for which the predicate holds, None only if it holds for none) and a byte-slice "
             "equality wrapper",
